@@ -125,11 +125,11 @@ Theorem mkdir_name_total d cl : N.of_nat (length cl) < 1000000 -> mkdir_name tru
 Proof.
   intros B H. unfold mkdir_name in H. apply pick_none in H.
   set (n := (2 * length cl + 2)%nat) in *.
-  assert (ND : NoDup (cands d 0 n)).
+  assert (ND : NoDup (cands (norm d) 0 n)).
   { apply cands_nodup. subst n. change (10 ^ 20) with 100000000000000000000. lia. }
-  pose proof (in_use_count (cands d 0 n) ND cl) as C.
-  assert (All : filter (fun c => in_use c cl) (cands d 0 n) = cands d 0 n).
-  { clear -H. induction (cands d 0 n) as [|c L IH]; [reflexivity|]. cbn [forallb] in H. apply andb_true_iff in H.
+  pose proof (in_use_count (cands (norm d) 0 n) ND cl) as C.
+  assert (All : filter (fun c => in_use c cl) (cands (norm d) 0 n) = cands (norm d) 0 n).
+  { clear -H. induction (cands (norm d) 0 n) as [|c L IH]; [reflexivity|]. cbn [forallb] in H. apply andb_true_iff in H.
     destruct H as [H1 H2]. cbn [filter]. rewrite H1, IH by exact H2. reflexivity. }
   rewrite All in C. unfold cands in C. rewrite map_length, seq_length in C. subst n. lia.
 Qed.
